@@ -56,13 +56,16 @@ func c09Scenario(r *vf.Run, t *testing.T, id string, rng *rand.Rand) {
 		offKinds = append(offKinds, kinds[rng.Intn(len(kinds))])
 	}
 	inflight := rng.Intn(2) == 0
+	// smallHdrLimit: MaxHeaderListSize is 4096 and every offending block carries about 2.5 kB of fields: each block is within
+	// the limit, two of them together are not - what is counted for one block must not be carried over to the next
+	smallHdrLimit := rng.Intn(5) == 0
 	longHistory := rng.Intn(12) == 0
 	nBefore, nAfter := rng.Intn(3), 1+rng.Intn(2)
 	var triggers []string
 	if longHistory {
 		inflight = true
 	}
-	replay := map[string]any{"offences": offKinds, "frames_in_flight_after_reset": inflight, "before": nBefore, "after": nAfter, "more_than_256_streams_before": longHistory}
+	replay := map[string]any{"small_header_list_limit": smallHdrLimit, "offences": offKinds, "frames_in_flight_after_reset": inflight, "before": nBefore, "after": nAfter, "more_than_256_streams_before": longHistory}
 	failed := false
 	fail := func(rule, detail string) {
 		if !failed {
@@ -79,6 +82,9 @@ func c09Scenario(r *vf.Run, t *testing.T, id string, rng *rand.Rand) {
 	const readTimeout = 5 * time.Second
 	res := rt.RunBubble(t, id, 30*time.Second, func() {
 		so := rt.ServerOpts{MaxRequestBodySize: bodyLimit}
+		if smallHdrLimit {
+			so.MaxHeaderListSize = 4096
+		}
 		if hasRefused {
 			so.MaxConcurrentStreams = 2
 		}
@@ -92,6 +98,24 @@ func c09Scenario(r *vf.Run, t *testing.T, id string, rng *rand.Rand) {
 		newGood := func(extra []F) *reqSpec {
 			q := genRequest(rng, id, nextStream, g)
 			nextStream++
+			if smallHdrLimit {
+				// the well-formed requests themselves stay well within the small limit
+				trim := func(fs []F, budget int) []F {
+					var out []F
+					for _, f := range fs {
+						if budget -= len(f.Name) + len(f.Value) + 32; budget < 0 {
+							break
+						}
+						out = append(out, f)
+					}
+					return out
+				}
+				q.Fields, q.Trailers = trim(q.Fields, 1500), trim(q.Trailers, 400)
+				if q.EndMode == 3 && len(q.Trailers) == 0 {
+					q.Trailers = []F{{Name: "x-trailer-short", Value: "1"}}
+				}
+				extra = nil
+			}
 			// later requests reference what offending blocks inserted
 			for _, f := range extra {
 				q.Fields = append(q.Fields, f)
@@ -144,7 +168,21 @@ func c09Scenario(r *vf.Run, t *testing.T, id string, rng *rand.Rand) {
 			base := []F{{Name: ":method", Value: "POST"}, {Name: ":scheme", Value: "https"}, {Name: ":path", Value: "/off/" + tag}, {Name: ":authority", Value: "o.example"}, {Name: "x-vtag", Value: tag}}
 			ins1 := F{Name: fmt.Sprintf("x-ins-a-%d", oi), Value: "before-" + randToken(rng, 8, customNameAlphabet)}
 			ins2 := F{Name: fmt.Sprintf("x-ins-b-%d", oi), Value: "after-" + randToken(rng, 8, customNameAlphabet)}
-			enc := func(fs []F, cs []hpackref.Choice) []byte { return e.P.EncodeBlock(fs, cs) }
+			if smallHdrLimit {
+				ins2.Value += randToken(rng, 2400, customNameAlphabet)
+			}
+			enc := func(fs []F, cs []hpackref.Choice) []byte {
+				// every third block of an offender opens with a dynamic table size update (the peer resized its table and this
+				// happens to be its next block): refused, abandoned or late, the block is still decoded, update included
+				var upd []byte
+				if rng.Intn(3) == 0 {
+					for _, n := range [][]uint32{{4096}, {0, 4096}, {1000, 4096}, {2000}}[rng.Intn(4)] {
+						upd = e.P.Enc.SizeUpdate(upd, n)
+					}
+					r.Inc("offender_blocks_starting_with_a_table_size_update", 1)
+				}
+				return append(upd, e.P.EncodeBlock(fs, cs)...)
+			}
 			choicesFor := func(fs []F) []hpackref.Choice {
 				cs := make([]hpackref.Choice, len(fs))
 				for i, f := range fs {
